@@ -851,7 +851,13 @@ def _scope_atoms(rnd, m, st):
     return atoms
 
 
-def _wrong_kind_expr(rnd, atoms, depth=0):
+LOCATION_CONSTANTS = ["-1", "0-1", "0", "1-2", "-9223372036854775808", "9223372036854775807", "18446744073709551615", "18446744073709551616", "64", "65", "0x7fff_ffff_ffff_ffff", "1*0-1", "-0", "2*2*2*2*2*2*2*2*2*2*2*2*2*2*2*2*2*2*2*2"]
+
+
+def _wrong_kind_expr(rnd, atoms, depth=0, slot=None):
+    if depth == 0 and slot in ("start", "size", "dim", "arg") and rnd.random() < 0.3:
+        # offsets, sizes, lengths and arguments at the edges of what the passes expect
+        return rnd.choice(LOCATION_CONSTANTS)
     k = rnd.random()
     a = lambda: rnd.choice(atoms) if depth >= 2 or rnd.random() < 0.6 else "(" + _wrong_kind_expr(rnd, atoms, depth + 1) + ")"
     if k < 0.40:
@@ -897,7 +903,6 @@ def scope_substituted_source(rnd):
     for _ in range(rnd.choice([1, 1, 2, 3])):
         st = rnd.choice(structs)
         atoms = _scope_atoms(rnd, m, st)
-        new = ("raw", _wrong_kind_expr(rnd, atoms))
         slots = []
         for f in st.fields:
             for g in [f] + (f.anon or []):
@@ -917,6 +922,7 @@ def scope_substituted_source(rnd):
         if not slots:
             continue
         obj, slot = rnd.choice(slots)
+        new = ("raw", _wrong_kind_expr(rnd, atoms, slot=(slot[0] if isinstance(slot, tuple) else slot)))
         if isinstance(slot, tuple):
             kind, i = slot
             lst = obj.typ.args if kind == "arg" else obj.typ.dims
@@ -934,3 +940,66 @@ def scope_substituted_source(rnd):
         m2, _ = layout_module(rnd)
         text = module_text(m2)
     return "scope-substitution", {"m.emb": text}, "m.emb"
+
+
+# ---- programs around the 64-bit range gate (C16) ------------------------------------------
+#
+# The range checks are the only diagnostics that are located on expressions the compiler
+# synthesizes or rewrites ($next, $size_in_*, aliases of anonymous bits).  Wide fields used in
+# locations, lengths, conditions and virtual fields reach them.
+
+def range_gate_source(rnd):
+    wide = []
+    lines = ['[$default byte_order: "%s"]' % rnd.choice(["LittleEndian", "BigEndian"])]
+    in_bits = rnd.random() < 0.25
+    unit = 1 if in_bits else 8
+    lines.append(("bits Foo:" if in_bits else "struct Foo:"))
+    pos = 0
+    for i in range(rnd.choice([1, 2, 2, 3])):
+        w = rnd.choice([64, 64, 63, 32, 62, 56]) if not in_bits else rnd.choice([32, 31, 16, 24])
+        if not in_bits:
+            w = (w + 7) // 8 * 8
+        kind = rnd.choice(["UInt", "UInt", "Int"])
+        name = "w%d" % i
+        lines.append("  %d [+%d]  %s  %s" % (pos // unit, w // unit, kind, name))
+        pos += w
+        wide.append(name)
+    small = "s0"
+    if not in_bits:
+        lines.append("  %d [+1]  UInt  %s" % (pos // 8, small))
+        pos += 8
+        wide_or_small = wide + [small]
+    else:
+        wide_or_small = wide
+    a = lambda: rnd.choice(wide_or_small)
+    big = lambda: rnd.choice(["9223372036854775807", "18446744073709551615", "4294967296", "2", "3", "1", "65536"])
+    expr = lambda: rnd.choice([a(), "%s + %s" % (a(), a()), "%s * %s" % (a(), rnd.choice([a(), big()])), "%s - %s" % (a(), a()), "%s + %s" % (a(), big()), "$max(%s, %s)" % (a(), big()), "(%s) * (%s + 1)" % (a(), a())])
+    elem = "UInt:8" if not in_bits else "UInt:1"
+    for j in range(rnd.choice([2, 3, 4, 5, 6])):
+        k = rnd.random()
+        name = "x%d" % j
+        if k < 0.2:
+            lines.append("  %s [+%s]  %s[]  %s" % (expr(), expr(), elem, name))
+        elif k < 0.4:
+            lines.append("  $next [+%s]  %s  %s" % (rnd.choice(["1", "8"]) if in_bits else rnd.choice(["1", "2"]), "UInt", name))
+        elif k < 0.5:
+            lines.append("  %s [+1]  %s  %s" % (expr(), "Flag" if in_bits else "UInt", name))
+        elif k < 0.62:
+            lines.append("  let %s = %s" % (name, expr()))
+        elif k < 0.72:
+            lines.append("  if %s %s %s:" % (expr(), rnd.choice(["<", ">", "==", "<="]), expr()))
+            lines.append("    $next [+1]  %s  %s" % ("Flag" if in_bits else "UInt", name))
+        elif k < 0.8 and not in_bits:
+            n = expr()
+            lines.append("  %d [+%s]  UInt:8[%s]  %s" % (pos // 8, n, n, name))
+        elif k < 0.88 and not in_bits:
+            lines.append("  $next [+2]  bits:")
+            lines.append("    0 [+%s]  UInt  b%d" % (rnd.choice(["16", "8", "65", "13"]), j))
+            lines.append("    %s [+1]  Flag  c%d" % (rnd.choice(["15", "13", "64", "16"]), j))
+        else:
+            lines.append("  let %s = $size_in_%s + %s" % (name, "bits" if in_bits else "bytes", expr()))
+    if rnd.random() < 0.3:
+        lines.append("struct Bar:")
+        lines.append("  0 [+%s]  Foo  foo" % rnd.choice(["8", "16", "Foo.$max_size_in_bytes" if not in_bits else "8"]))
+        lines.append("  let far = foo.%s + %s" % (rnd.choice(wide), big()))
+    return "range-gate", {"m.emb": "\n".join(lines) + "\n"}, "m.emb"
